@@ -245,7 +245,9 @@ func c13Worker(w *W) {
 			time.Sleep(time.Duration(150+cycles%5*60) * time.Millisecond)
 			apMu.Lock()
 			ap.Stop()
-			ap = mk()
+			if cycles%2 == 0 {
+				ap = mk() // a fresh appender on the same directory ...
+			} // ... or the very same instance started again
 			err := ap.Start()
 			apMu.Unlock()
 			cycles++
